@@ -4,7 +4,7 @@ From TT Require Import Model.Doc Gen.StyleTables Model.Isd Model.Lcd Spec.IsdSpe
   Proofs.Common.ElemInd Proofs.C16.Basics Proofs.C16.Prov Proofs.C16.Static Proofs.C16.Refs Proofs.C16.Idem.
 
 Definition da_tag (a : attrs) : Z := match sget (e_styles a) p_DisplayAlign with Some (VEnum x) => x | _ => -1 end.
-Definition fp_attrs (a : attrs) : fp := (or0 (e_begin a), or_none (e_end a), e_WritingModeType_lrtb, da_tag a).
+Definition fp_attrs (a : attrs) : fp := (or0 (e_begin a), e_end a, e_WritingModeType_lrtb, da_tag a).
 
 Lemma lookup_fp_none ret f : lookup_fp ret f = None -> forall g t, In (g, t) ret -> fp_eqb g f = false.
 Proof.
@@ -12,23 +12,14 @@ Proof.
   destruct (fp_eqb h f) eqn:E; [discriminate|]. destruct Hi as [Hi|Hi]; [inversion Hi; subst; exact E | exact (IH H _ _ Hi)].
 Qed.
 
-Lemma or_none_eq x y : Qeq_bool x y = true -> oQ_eqb (or_none (Some x)) (or_none (Some y)) = true.
-Proof.
-  intros H. apply Qeq_bool_iff in H. unfold or_none.
-  assert (Qeq_bool x 0 = Qeq_bool y 0) as E.
-  { destruct (Qeq_bool x 0) eqn:E1, (Qeq_bool y 0) eqn:E2; try reflexivity.
-    - apply Qeq_bool_iff in E1. rewrite H in E1. apply Qeq_bool_iff in E1. congruence.
-    - apply Qeq_bool_iff in E2. rewrite <- H in E2. apply Qeq_bool_iff in E2. congruence. }
-  rewrite E. destruct (Qeq_bool y 0); [reflexivity|]. cbn [oQ_eqb]. apply Qeq_bool_iff. exact H.
-Qed.
 (* two records of the same class have equal fingerprints *)
 Lemma same_class_fp d a b : da_tag a <> -1 -> same_class d a b = true -> fp_eqb (fp_attrs a) (fp_attrs b) = true.
 Proof.
   unfold same_class, same_timing, fp_attrs, fp_eqb. intros Hda H.
   apply andb_true_iff in H as [H Hd]. apply andb_true_iff in H as [H _]. apply andb_true_iff in H as [Hb He].
   unfold begin_of in Hb. unfold or0. rewrite Hb. cbn [andb]. rewrite Z.eqb_refl, andb_true_r.
-  assert (oQ_eqb (or_none (e_end a)) (or_none (e_end b)) = true) as Ee.
-  { destruct (e_end a) as [x|], (e_end b) as [y|]; try discriminate; [exact (or_none_eq _ _ He) | reflexivity]. }
+  assert (oQ_eqb (e_end a) (e_end b) = true) as Ee.
+  { destruct (e_end a) as [x|], (e_end b) as [y|]; try discriminate; [exact He | reflexivity]. }
   rewrite Ee. cbn [andb]. unfold enum_eqb, da_tag in *.
   destruct (sget (e_styles a) p_DisplayAlign) as [[]|], (sget (e_styles b) p_DisplayAlign) as [[]|]; try discriminate; try congruence; exact Hd.
 Qed.
